@@ -6,7 +6,7 @@ MAIN = "c11"
 MODULES = ["geom", "pos", "stubs", "step", "c11"]
 ACCESS = None
 DUMP = []
-PARALLEL = 4
+PARALLEL = 15
 
 META = {
     "functions_encoded": ["chess::game::Game::{is_stalemate_by_insufficient_material, is_stalemate_by_fifty_move_rule, is_repeated_position, make_move}",
@@ -33,13 +33,22 @@ MANIFEST = {
 }
 
 
+KINDS = ["pawn", "knight", "bishop", "rook", "queen", "king"]
+
+
 def jobs(tier, seed):
-    return [
+    js = [
         Job("c11_material", "insufficient-material verdict vs the statement on every board", timeout=900, checks="functional", min_covers=2),
         Job("c11_fifty_move", "fifty-move rule for all clocks x (0..3 legal moves)", timeout=900, min_covers=2),
         Job("c11_repetition_window", "is_repeated_position on arbitrary histories (<= 6 entries), keys, clocks", timeout=1200, min_covers=2),
-        Job("c11_history_entry", "make_move pushes (key, clock) of the position left behind; clock rule", timeout=2400, mem_gb=24, checks="functional", min_covers=2),
     ]
+    for kind in range(6):
+        for side in (0, 1):
+            name = f"c11_history_entry_{KINDS[kind]}_{'wb'[side]}"
+            src = f"#[kani::proof]\npub fn {name}() {{ c11::history_entry({kind}, {side}); }}\n"
+            js.append(Job(name, f"make_move of a {KINDS[kind]} ({'white' if side == 0 else 'black'}) pushes (key, clock) of the position left behind; clock rule", gen=src,
+                          timeout=2400, mem_gb=16, checks="functional", witness=False))
+    return js
 
 
 def decode(job, vals):
